@@ -467,21 +467,46 @@ func (c *Ctx) inlineSingleReturn(info *types.Info, call *ast.CallExpr) ast.Expr 
 		return nil
 	}
 	d := c.P.Decls[fn.Origin()]
-	if d == nil || d.Decl.Body == nil || d.Pkg.TypesInfo != info || len(d.Decl.Body.List) != 1 {
+	if d == nil || d.Decl.Body == nil || d.Pkg.TypesInfo != info || len(d.Decl.Body.List) == 0 {
 		return nil
 	}
-	ret, ok := d.Decl.Body.List[0].(*ast.ReturnStmt)
+	return returnedExpr(info, d.Decl, call.Args)
+}
+
+// returnedExpr: the single expression a function made of call-free local definitions and one
+// return evaluates to, with the parameters replaced by args (nil: parameters stay).
+func returnedExpr(info *types.Info, fd *ast.FuncDecl, args []ast.Expr) ast.Expr {
+	if fd.Body == nil || len(fd.Body.List) == 0 {
+		return nil
+	}
+	nb := len(fd.Body.List)
+	ret, ok := fd.Body.List[nb-1].(*ast.ReturnStmt)
 	if !ok || len(ret.Results) != 1 {
 		return nil
 	}
 	sub := map[types.Object]ast.Expr{}
+	// locals defined once by a call-free expression before the return are replaced by their definitions
+	var locals []*ast.AssignStmt
+	for _, s := range fd.Body.List[:nb-1] {
+		as, ok := s.(*ast.AssignStmt)
+		if !ok || as.Tok != token.DEFINE || len(as.Lhs) != 1 || len(as.Rhs) != 1 {
+			return nil
+		}
+		if _, isID := as.Lhs[0].(*ast.Ident); !isID || !callFree(info, as.Rhs[0]) {
+			return nil
+		}
+		locals = append(locals, as)
+	}
 	i := 0
-	for _, f := range d.Decl.Type.Params.List {
+	for _, f := range fd.Type.Params.List {
 		for _, nm := range f.Names {
-			if i >= len(call.Args) {
+			if args == nil {
+				continue
+			}
+			if i >= len(args) {
 				return nil
 			}
-			sub[info.ObjectOf(nm)] = call.Args[i]
+			sub[info.ObjectOf(nm)] = args[i]
 			i++
 		}
 	}
@@ -512,7 +537,33 @@ func (c *Ctx) inlineSingleReturn(info *types.Info, call *ast.CallExpr) ast.Expr 
 		}
 		return e
 	}
+	for _, as := range locals {
+		sub[info.ObjectOf(as.Lhs[0].(*ast.Ident))] = cp(as.Rhs[0])
+	}
 	return cp(ret.Results[0])
+}
+
+// callFree: the expression calls nothing but len, cap and conversions.
+func callFree(info *types.Info, e ast.Expr) bool {
+	ok := true
+	ast.Inspect(e, func(n ast.Node) bool {
+		switch x := n.(type) {
+		case *ast.FuncLit:
+			ok = false
+		case *ast.CallExpr:
+			if tv, has := info.Types[x.Fun]; has && tv.IsType() {
+				return true
+			}
+			if id, isID := x.Fun.(*ast.Ident); isID {
+				if _, isB := info.Uses[id].(*types.Builtin); isB && (id.Name == "len" || id.Name == "cap") {
+					return true
+				}
+			}
+			ok = false
+		}
+		return ok
+	})
+	return ok
 }
 
 // inlineValueCalls expands, in a statement list, `v := f(a, b, …)` / `v = f(…)` where f is an
@@ -704,4 +755,84 @@ func (cl *astCloner) valueBody(list []ast.Stmt, target *ast.Ident) ([]ast.Stmt, 
 		}
 		return append([]ast.Stmt{c}, r...), true
 	}
+}
+
+// family: fi and the unexported functions and methods of its package that it calls, transitively
+// (static callees). A rule that looks for a construct "in the reader" looks in the family, so that
+// cutting the reader into helpers does not hide the construct.
+func (c *Ctx) family(fi *load.FuncInfo) []*load.FuncInfo {
+	if fi == nil {
+		return nil
+	}
+	seen := map[*load.FuncInfo]bool{fi: true}
+	out := []*load.FuncInfo{fi}
+	for i := 0; i < len(out); i++ {
+		cur := out[i]
+		if cur.Decl.Body == nil {
+			continue
+		}
+		ast.Inspect(cur.Decl.Body, func(n ast.Node) bool {
+			call, ok := n.(*ast.CallExpr)
+			if !ok {
+				return true
+			}
+			fn := callee(cur.Pkg.TypesInfo, call)
+			if fn == nil || fn.Exported() {
+				return true
+			}
+			d := c.P.Decls[fn.Origin()]
+			if d == nil || d.Pkg != cur.Pkg || seen[d] {
+				return true
+			}
+			seen[d] = true
+			out = append(out, d)
+			return true
+		})
+	}
+	return out
+}
+
+// familyBodies: the bodies of the family of fi.
+func (c *Ctx) familyBodies(fi *load.FuncInfo) []*ast.BlockStmt {
+	var out []*ast.BlockStmt
+	for _, f := range c.family(fi) {
+		if f.Decl.Body != nil {
+			out = append(out, f.Decl.Body)
+		}
+	}
+	return out
+}
+
+// resolveLocals replaces, in a copy of e, every local variable of body that is defined exactly
+// once by a call-free expression with that expression (repeatedly, three levels).
+func resolveLocals(info *types.Info, body *ast.BlockStmt, e ast.Expr) ast.Expr {
+	defs := singleDefs(info, body)
+	var cp func(e ast.Expr, depth int) ast.Expr
+	cp = func(e ast.Expr, depth int) ast.Expr {
+		switch x := e.(type) {
+		case *ast.Ident:
+			if d, ok := defs[info.ObjectOf(x)]; ok && depth < 3 && callFree(info, d) {
+				return &ast.ParenExpr{X: cp(d, depth+1)}
+			}
+			return x
+		case *ast.ParenExpr:
+			return &ast.ParenExpr{X: cp(x.X, depth)}
+		case *ast.BinaryExpr:
+			return &ast.BinaryExpr{X: cp(x.X, depth), Op: x.Op, OpPos: x.OpPos, Y: cp(x.Y, depth)}
+		case *ast.UnaryExpr:
+			return &ast.UnaryExpr{Op: x.Op, OpPos: x.OpPos, X: cp(x.X, depth)}
+		case *ast.CallExpr:
+			n := &ast.CallExpr{Fun: x.Fun, Lparen: x.Lparen, Rparen: x.Rparen}
+			for _, a := range x.Args {
+				n.Args = append(n.Args, cp(a, depth))
+			}
+			return n
+		case *ast.SelectorExpr:
+			return &ast.SelectorExpr{X: cp(x.X, depth), Sel: x.Sel}
+		case *ast.IndexExpr:
+			return &ast.IndexExpr{X: cp(x.X, depth), Index: cp(x.Index, depth)}
+		}
+		return e
+	}
+	return cp(e, 0)
 }
